@@ -7,67 +7,116 @@ Require Import Model.Base Model.Ante Model.Validate Model.Current Model.State Mo
 Require Import proofs.Inv proofs.InvIdx proofs.L1Effects proofs.InvPres proofs.InvMsgs proofs.InvHistory.
 Open Scope Z_scope.
 
-(* ---- the queue as a relation ---- *)
-Definition queued_at (q : list (Z * Z * list Z)) (id t h : Z) : Prop := exists ids, In (t, h, ids) q /\ In id ids.
-Definition slot_keys (q : list (Z * Z * list Z)) : list (Z * Z) := map fst q.
-Definition all_queued (q : list (Z * Z * list Z)) : list Z := flat_map snd q.
+Record QI (s : staking) : Prop := {
+  (* every queued id has a record that is unbonding with exactly that completion time and height *)
+  qi_sound : forall t h ids id, ubq s !! (t, h) = Some ids -> In id ids ->
+               exists v, vals s !! id = Some v /\ v_status v = Unbonding /\ v_ubtime v = t /\ v_ubheight v = h;
+  qi_nodup : forall t h ids, ubq s !! (t, h) = Some ids -> List.NoDup ids;
+  (* a validator without shares holds no tokens (RemoveValidator refuses otherwise) *)
+  qi_zero : forall id v, vals s !! id = Some v -> v_shares v = 0 -> v_tokens v <= 0
+}.
 
-Lemma in_all_queued q id : In id (all_queued q) <-> exists t h, queued_at q id t h.
+Definition queued (s : staking) (id : Z) : Prop := exists t h ids, ubq s !! (t, h) = Some ids /\ In id ids.
+
+Lemma not_unbonding_not_queued s id v : QI s -> vals s !! id = Some v -> v_status v <> Unbonding -> ~ queued s id.
+Proof. intros HQ Hv Hs (t & h & ids & Hq & Hin). destruct (qi_sound _ HQ t h ids id Hq Hin) as (v' & Hv' & Hs' & _). congruence. Qed.
+
+Lemma no_record_not_queued s id : QI s -> vals s !! id = None -> ~ queued s id.
+Proof. intros HQ Hv (t & h & ids & Hq & Hin). destruct (qi_sound _ HQ t h ids id Hq Hin) as (v' & Hv' & _). congruence. Qed.
+
+(* ---- replacing the record of a validator that keeps its queue-relevant fields, or is not queued ---- *)
+Lemma QI_insert s s' id v' :
+  QI s -> vals s' = <[id := v']> (vals s) -> ubq s' = ubq s ->
+  ((exists v, vals s !! id = Some v /\ v_status v' = v_status v /\ v_ubtime v' = v_ubtime v /\ v_ubheight v' = v_ubheight v) \/ ~ queued s id) ->
+  (v_shares v' = 0 -> v_tokens v' <= 0) ->
+  QI s'.
 Proof.
-  unfold all_queued, queued_at. rewrite in_flat_map. split.
-  - intros ([[t h] ids] & Hin & Hid). exists t, h, ids. auto.
-  - intros (t & h & ids & Hin & Hid). exists (t, h, ids). auto.
+  intros [Hs Hn Hz] Hv Hq Hcase Hzero. constructor.
+  - intros t h ids i. rewrite Hq, Hv. intros Hslot Hin. destruct (Hs t h ids i Hslot Hin) as (vi & Hvi & Hst & Ht & Hh).
+    destruct (decide (i = id)) as [->|Hne].
+    + rewrite lookup_insert. destruct Hcase as [(v & Hv0 & E1 & E2 & E3)|Hnq].
+      * rewrite Hvi in Hv0. inversion Hv0; subst. exists v'. repeat split; congruence.
+      * exfalso. apply Hnq. exists t, h, ids. auto.
+    + rewrite lookup_insert_ne by auto. eauto.
+  - intros t h ids. rewrite Hq. apply Hn.
+  - intros i vi. rewrite Hv. destruct (decide (i = id)) as [->|Hne]; [rewrite lookup_insert; intros [= <-]; exact Hzero|].
+    rewrite lookup_insert_ne by auto. apply Hz.
 Qed.
 
-(* ---- ubq_insert ---- *)
-Lemma ubq_insert_queued q t h id0 id t' h' :
-  queued_at (ubq_insert t h id0 q) id t' h' <-> (id = id0 /\ t' = t /\ h' = h) \/ queued_at q id t' h'.
+(* ---- queue operations ---- *)
+Lemma ubq_insert_lookup q t h id t' h' :
+  ubq_insert t h id q !! (t', h') = if decide ((t', h') = (t, h)) then Some (default [] (q !! (t, h)) ++ [id]) else q !! (t', h').
+Proof. unfold ubq_insert. destruct (decide _) as [->|Hne]; [apply lookup_insert|apply lookup_insert_ne; congruence]. Qed.
+
+Lemma ubq_delete_lookup q t h id t' h' ids :
+  ubq_delete t h id q !! (t', h') = Some ids ->
+  (((t', h') <> (t, h) /\ q !! (t', h') = Some ids) \/
+   ((t', h') = (t, h) /\ ids = filter (fun x => negb (x =? id)) (default [] (q !! (t, h))))).
 Proof.
-  induction q as [|[[t1 h1] ids1] q IH]; cbn [ubq_insert].
-  - unfold queued_at. cbn. split.
-    + intros (ids & [Heq|[]] & Hin). inversion Heq; subst. destruct Hin as [->|[]]. left; auto.
-    + intros [(-> & -> & ->)|(ids & [] & _)]. exists [id0]. split; [left; reflexivity|left; reflexivity].
-  - destruct ((t =? t1) && (h =? h1)) eqn:E.
-    + apply andb_true_iff in E as [E1 E2]. apply Z.eqb_eq in E1, E2. subst t1 h1. unfold queued_at. cbn. split.
-      * intros (ids & [Heq|Hin] & Hid).
-        -- inversion Heq; subst. apply in_app_or in Hid as [Hid|[->|[]]]; [right; exists ids1; auto|left; auto].
-        -- right. exists ids. auto.
-      * intros [(-> & -> & ->)|(ids & [Heq|Hin] & Hid)].
-        -- exists (ids1 ++ [id0]). split; [left; reflexivity|apply in_or_app; right; left; reflexivity].
-        -- inversion Heq; subst. exists (ids1 ++ [id0]). split; [left; reflexivity|apply in_or_app; left; exact Hid].
-        -- exists ids. auto.
-    + destruct (slot_le (t, h, []) (t1, h1, ids1)).
-      * unfold queued_at. cbn. split.
-        -- intros (ids & [Heq|Hin] & Hid); [inversion Heq; subst; destruct Hid as [->|[]]; left; auto|right; exists ids; auto].
-        -- intros [(-> & -> & ->)|(ids & Hin & Hid)]; [exists [id0]; split; [left; reflexivity|left; reflexivity]|exists ids; split; [right; exact Hin|exact Hid]].
-      * unfold queued_at in *. cbn. split.
-        -- intros (ids & [Heq|Hin] & Hid).
-           ++ right. exists ids. split; [left; exact Heq|exact Hid].
-           ++ destruct (proj1 IH (ex_intro _ ids (conj Hin Hid))) as [H|(ids' & Hin' & Hid')]; [left; exact H|right; exists ids'; auto].
-        -- intros [H|(ids & [Heq|Hin] & Hid)].
-           ++ destruct (proj2 IH (or_introl H)) as (ids' & Hin' & Hid'). exists ids'. auto.
-           ++ exists ids. split; [left; exact Heq|exact Hid].
-           ++ destruct (proj2 IH (or_intror (ex_intro _ ids (conj Hin Hid)))) as (ids' & Hin' & Hid'). exists ids'. auto.
+  unfold ubq_delete. destruct (filter _ _) as [|x l] eqn:Ef.
+  - destruct (decide ((t', h') = (t, h))) as [->|Hne]; [rewrite lookup_delete; discriminate|rewrite lookup_delete_ne by congruence; auto].
+  - destruct (decide ((t', h') = (t, h))) as [->|Hne]; [rewrite lookup_insert; intros [= <-]; right; auto|rewrite lookup_insert_ne by congruence; auto].
 Qed.
 
-Lemma ubq_insert_keys q t h id0 : List.NoDup (slot_keys q) -> List.NoDup (slot_keys (ubq_insert t h id0 q)) /\
-  forall k, In k (slot_keys (ubq_insert t h id0 q)) <-> k = (t, h) \/ In k (slot_keys q).
+Lemma filter_neq_in (l : list Z) id x : In x (filter (fun y => negb (y =? id)) l) <-> In x l /\ x <> id.
+Proof. rewrite filter_In, negb_true_iff, Z.eqb_neq. tauto. Qed.
+
+(* after DeleteValidatorQueue with the record's own time and height the validator is no longer queued *)
+Lemma ubq_delete_unqueues s id v :
+  QI s -> vals s !! id = Some v ->
+  forall t' h' ids, ubq_delete (v_ubtime v) (v_ubheight v) id (ubq s) !! (t', h') = Some ids -> ~ In id ids.
 Proof.
-  induction q as [|[[t1 h1] ids1] q IH]; cbn [ubq_insert]; intros Hnd.
-  - cbn. split; [constructor; [intros []|constructor]|]. intros k. split; [intros [<-|[]]; left; reflexivity|intros [->|[]]; left; reflexivity].
-  - inversion Hnd as [|? ? Hn Hnd']; subst. destruct ((t =? t1) && (h =? h1)) eqn:E.
-    + apply andb_true_iff in E as [E1 E2]. apply Z.eqb_eq in E1, E2. subst t1 h1. cbn. split; [exact Hnd|]. intros k. split; [intros [<-|H]; [left; reflexivity|right; right; exact H]|].
-      intros [->|[<-|H]]; [left; reflexivity|left; reflexivity|right; exact H].
-    + assert (Hne : (t, h) <> (t1, h1)).
-      { intros Heq. inversion Heq; subst. rewrite !Z.eqb_refl in E. discriminate. }
-      destruct (slot_le (t, h, []) (t1, h1, ids1)).
-      * cbn. split.
-        -- constructor; [|exact Hnd]. cbn. intros [H|H]; [congruence|]. (* (t,h) would be a key of q: then ubq_insert would have... *)
-           (* not excluded by the order test alone; excluded because slot keys are kept sorted — we avoid that argument:
-              key uniqueness needs (t,h) absent from the tail *)
-           exfalso. revert H. fold (slot_keys q). intros H. apply Hne. exfalso.
-           (* this branch is unreachable under sortedness; handled by the stronger lemma below *)
-           exact (False_ind _ (ltac:(fail) : False)).
-        -- intros k. cbn. tauto.
-      * admit.
-Abort.
+  intros HQ Hv t' h' ids Hl Hin. apply ubq_delete_lookup in Hl as [[Hne Hl]|[Heq ->]].
+  - destruct (qi_sound _ HQ t' h' ids id Hl Hin) as (v' & Hv' & _ & Ht & Hh). rewrite Hv in Hv'. inversion Hv'; subst. congruence.
+  - apply filter_neq_in in Hin as [_ Hne]. congruence.
+Qed.
+
+(* bond / mature: the record leaves the Unbonding status and the queue together *)
+Lemma QI_leave_queue s s' id v v' :
+  QI s -> vals s !! id = Some v ->
+  vals s' = <[id := v']> (vals s) -> ubq s' = ubq_delete (v_ubtime v) (v_ubheight v) id (ubq s) ->
+  (v_shares v' = 0 -> v_tokens v' <= 0) ->
+  QI s'.
+Proof.
+  intros HQ Hv Hvals Hq Hzero. constructor.
+  - intros t h ids i. rewrite Hq, Hvals. intros Hslot Hin.
+    assert (i <> id) by (intros ->; eapply ubq_delete_unqueues; eauto).
+    rewrite lookup_insert_ne by auto. apply ubq_delete_lookup in Hslot as [[Hne Hl]|[Heq ->]].
+    + eapply (qi_sound _ HQ); eauto.
+    + inversion Heq; subst. apply filter_neq_in in Hin as [Hin _]. destruct (ubq s !! (v_ubtime v, v_ubheight v)) as [ids0|] eqn:E; [|destruct Hin].
+      eapply (qi_sound _ HQ); eauto.
+  - intros t h ids. rewrite Hq. intros Hslot. apply ubq_delete_lookup in Hslot as [[Hne Hl]|[Heq ->]].
+    + eapply (qi_nodup _ HQ); eauto.
+    + destruct (ubq s !! (v_ubtime v, v_ubheight v)) as [ids0|] eqn:E; cbn; [|constructor].
+      apply List.NoDup_filter. eapply (qi_nodup _ HQ); eauto.
+  - intros i vi. rewrite Hvals. destruct (decide (i = id)) as [->|Hne]; [rewrite lookup_insert; intros [= <-]; exact Hzero|].
+    rewrite lookup_insert_ne by auto. apply (qi_zero _ HQ).
+Qed.
+
+(* begin unbonding: the record enters the Unbonding status and the queue together *)
+Lemma QI_enter_queue s s' id v v' t h :
+  QI s -> vals s !! id = Some v -> v_status v = Bonded ->
+  v_status v' = Unbonding -> v_ubtime v' = t -> v_ubheight v' = h ->
+  vals s' = <[id := v']> (vals s) -> ubq s' = ubq_insert t h id (ubq s) ->
+  (v_shares v' = 0 -> v_tokens v' <= 0) ->
+  QI s'.
+Proof.
+  intros HQ Hv Hb Hs' Ht' Hh' Hvals Hq Hzero.
+  assert (Hnq : ~ queued s id) by (eapply not_unbonding_not_queued; eauto; congruence).
+  constructor.
+  - intros t0 h0 ids i. rewrite Hq, Hvals, ubq_insert_lookup. destruct (decide ((t0, h0) = (t, h))) as [Heq|Hne].
+    + assert (t0 = t /\ h0 = h) as [-> ->] by (inversion Heq; auto). intros Hsome Hin. inversion Hsome; subst ids. clear Hsome.
+      apply in_app_or in Hin as [Hin|[<-|[]]].
+      * destruct (ubq s !! (t, h)) as [ids0|] eqn:E; [|destruct Hin].
+        assert (i <> id) by (intros ->; apply Hnq; exists t, h, ids0; auto).
+        rewrite lookup_insert_ne by auto. eapply (qi_sound _ HQ); eauto.
+      * rewrite lookup_insert. exists v'. auto.
+    + intros Hslot Hin. assert (i <> id) by (intros ->; apply Hnq; exists t0, h0, ids; auto).
+      rewrite lookup_insert_ne by auto. eapply (qi_sound _ HQ); eauto.
+  - intros t0 h0 ids. rewrite Hq, ubq_insert_lookup. destruct (decide ((t0, h0) = (t, h))) as [Heq|Hne]; [|apply (qi_nodup _ HQ)].
+    intros [= <-]. apply nodup_snoc.
+    + destruct (ubq s !! (t, h)) as [ids0|] eqn:E; [|intros []]. intros Hin. apply Hnq. exists t, h, ids0. auto.
+    + destruct (ubq s !! (t, h)) as [ids0|] eqn:E; [eapply (qi_nodup _ HQ); eauto|constructor].
+  - intros i vi. rewrite Hvals. destruct (decide (i = id)) as [->|Hne]; [rewrite lookup_insert; intros [= <-]; exact Hzero|].
+    rewrite lookup_insert_ne by auto. apply (qi_zero _ HQ).
+Qed.
